@@ -78,6 +78,7 @@ def run(ctx):
     levels_arithmetic(ctx)
     from rules import storage_shared as ss
     ss.put_unconditional(ctx, 'C14')
+    ss.cache_after_db(ctx, 'C14')   # the cache never holds what the database does not (also inside a transaction)
     ds.join_rules(ctx, 'C14', want_writer_rule=True)
     preload_readonly(ctx)
     cfg_twins(ctx)
